@@ -64,8 +64,10 @@ package mempool
 // own code) an element taken from the pool is indistinguishable from a newly allocated one, so Get is specified as
 // returning a handle and a backing array that are new to the caller; what Put required (capacity class) still holds.
 //@ package sync
+// poolCap[p] == -2: every element of pool p is a *[]byte whose slice has room for at least one byte (the IO task pool, C02)
 //@ extern (*sync.Pool).Get
 //@   params self
+//@   ensures poolCap[self] == -2 ==> len(*as(result, "*[]byte")) >= 1
 //@   ensures poolCap[self] != 0 ==> istype(result, "*[]byte") && as(result, "*[]byte") != nil
 //@   ensures poolCap[self] != 0 ==> fresh(as(result, "*[]byte")) && fresh(*as(result, "*[]byte"))
 //@   ensures poolCap[self] > 0 ==> cap(*as(result, "*[]byte")) == poolCap[self]
@@ -74,6 +76,7 @@ package mempool
 //@   params self x
 //@   requires elem: poolCap[self] != 0 ==> istype(x, "*[]byte") && as(x, "*[]byte") != nil && !liveP[as(x, "*[]byte")]
 //@   requires cap: poolCap[self] > 0 ==> cap(*as(x, "*[]byte")) == poolCap[self]
+//@   requires room: poolCap[self] == -2 ==> len(*as(x, "*[]byte")) >= 1
 
 //@ package mempool
 
